@@ -4,6 +4,8 @@
  *
  *   ini <sep> <doc> [<name>=<value> ...]      sep: one byte (hex), doc: hex, then the environment
  *        -> ok <n> <name>=<value> ...          entries of the returned list table, top to bottom
+ *   inif <sep> <mainpath> [<path>=<content> ...]   qconfig_parse_file on a virtual file system (hex)
+ *        -> ok <n> <name>=<value> ... | null
  *   ac <flags> <defcb> <doc> [<opt> ...]       opt = <name>:<take>:<cb>:<sectionid>:<sections> (numbers hex)
  *        -> add <k> ret <n> <line|-> <msg|-> cbs <m> <cb> ...
  *           cb = <M|D>/<otype>/<section>/<sections>/<level>/<argc>/<parent argv[0]s>/<argv>
@@ -40,6 +42,24 @@ int __wrap_pclose(FILE *f) {
     int r = fclose(f);
     free(popen_buf); popen_buf = NULL;
     return r;
+}
+
+/* ---------------------------------------------------------------- virtual file system for qconfig_parse_file
+ * `open` is wrapped (-Wl,--wrap=open): during an `inif` operation the library sees exactly the files
+ * named on the operation line, under exactly those path strings (no normalisation); every other path,
+ * the real file system included, does not exist. The contents live in scratch files next to the binary. */
+#include <fcntl.h>
+#include <stdarg.h>
+#define MAXVF 512
+static struct { char *path; char real[4200]; } vf[MAXVF];
+static int nvf;
+int __real_open(const char *path, int flags, ...);
+int __wrap_open(const char *path, int flags, ...) {
+    (void) flags;
+    for (int i = 0; i < nvf; i++)
+        if (strcmp(vf[i].path, path) == 0) return __real_open(vf[i].real, O_RDONLY, 0);
+    errno = ENOENT;
+    return -1;
 }
 
 /* ---------------------------------------------------------------- watchdog */
@@ -129,6 +149,45 @@ static void do_ini(int nw, char **w) {
     free(s); free(sep.p); free(doc.p);
 }
 
+/* inif <sep> <mainpath> [<path>=<content> ...]   -> ok <n> <name>=<value> ... | null */
+static void do_inif(int nw, char **w) {
+    bytes_t sep, mp;
+    if (!unhex(w[1], &sep) || sep.n != 1 || !unhex(w[2], &mp)) { printf("bad-op"); return; }
+    nvf = 0;
+    for (int i = 3; i < nw && nvf < MAXVF; i++) {
+        char *eq = strchr(w[i], '=');
+        if (!eq) continue;
+        *eq = '\0';
+        bytes_t n, v;
+        if (!unhex(w[i], &n) || !unhex(eq + 1, &v)) continue;
+        vf[nvf].path = cstr_exact(&n);
+        snprintf(vf[nvf].real, sizeof(vf[nvf].real), "%s.f%d", tmp_path, nvf);
+        FILE *fp = fopen(vf[nvf].real, "w");
+        if (fp) { if (v.n) fwrite(v.p, 1, v.n, fp); fclose(fp); }
+        free(n.p); free(v.p);
+        nvf++;
+    }
+    clearenv();
+    char *main_path = cstr_exact(&mp);
+    alarm(WATCHDOG_S);
+    errno = ENOMEM;   /* poison, see do_ini */
+    qlisttbl_t *t = qconfig_parse_file(NULL, main_path, (char) sep.p[0]);
+    alarm(0);
+    if (t == NULL) {
+        printf("null");
+    } else {
+        printf("ok %zu", t->size(t));
+        for (qlisttbl_obj_t *o = t->first; o != NULL; o = o->next) {
+            printf(" "); puthex(stdout, o->name, strlen(o->name)); printf("=");
+            puthex(stdout, o->data, o->size ? o->size - 1 : 0);
+        }
+        t->free(t);
+    }
+    for (int i = 0; i < nvf; i++) { unlink(vf[i].real); free(vf[i].path); }
+    nvf = 0;
+    free(main_path); free(sep.p); free(mp.p);
+}
+
 static void do_ac(int nw, char **w) {
     unsigned flags = (unsigned) hexnum(w[1]);
     int defcb = atoi(w[2]);
@@ -200,6 +259,7 @@ int main(int argc, char **argv) {
         for (char *t = strtok_r(line, " \t\r\n", &save); t && nw < 4096; t = strtok_r(NULL, " \t\r\n", &save)) w[nw++] = t;
         if (nw == 0) continue;
         if (!strcmp(w[0], "ini") && nw >= 3) do_ini(nw, w);
+        else if (!strcmp(w[0], "inif") && nw >= 3) do_inif(nw, w);
         else if (!strcmp(w[0], "ac") && nw >= 4) do_ac(nw, w);
         else printf("bad-op");
         printf("\n");
